@@ -357,3 +357,158 @@ def rule_constant_cells(ctx):
                    f'a cell without formula that stores {stored!r} evaluates to {got[0]} {got[1]!r}, expected {wcls} {wval!r}: the empty text is a '
                    'text (it sorts after every number: 5<"" is TRUE), only a cell without content is a blank')
     return len(cases)
+
+
+# --------------------------------------------------------------------------------------------------------------
+# L2: what an evaluation leaves on the evaluator; cycles, diamonds, failures
+# --------------------------------------------------------------------------------------------------------------
+class _Unbounded(Unmodelled):
+    """The witness recursion does not stop: a verdict about the analysed code, not a gap of the interpreter."""
+
+
+class _Ast(PyModel):
+    """Formula tree of a witness cell: a script of nested cell evaluations followed by a result or a failure."""
+
+    def __init__(self, run_nested, script, result=None, fail=None, budget=None):
+        self.run_nested, self.script, self.result, self.fail = run_nested, script, result, fail
+        self.calls = 0
+        self.budget = budget if budget is not None else {'n': 0}
+
+    def eval(self, context):
+        from xlsa.guards import ExcRaised
+        self.calls += 1
+        self.budget['n'] += 1
+        if self.budget['n'] > 24:
+            raise _Unbounded('the formulas of the witness model are entered more than 24 times (unbounded recursion)')
+        vals = [self.run_nested(context, addr) for addr in self.script]
+        if self.fail is not None:
+            raise ExcRaised(Ref(self.fail))
+        return self.result if self.result is not None else tuple(vals)
+
+
+def _snapshot(rec, skip=('model',)):
+    out = {}
+    for k, v in rec.f.items():
+        if k in skip:
+            continue
+        if isinstance(v, (list, dict, set)):
+            out[k] = repr(sorted(v, key=repr) if isinstance(v, (set, dict)) else list(v))
+        elif isinstance(v, (int, float, str, bool, type(None))):
+            out[k] = v
+    return out
+
+
+def rule_evaluator_state(ctx, parts=('restore', 'diamond', 'cycle')):
+    """Evaluator.evaluate interpreted on witness models (one world per scenario): what a finished evaluation - successful or
+    failed - leaves on the evaluator, whether shared precedents (diamond, repeated reference) evaluate, whether a real cycle is
+    reported instead of recursing."""
+    em = ctx.mod('evaluator')
+    ev_fn = em.func('Evaluator.evaluate')
+    XLT = 'pkg:xlfunctions.func_xltypes:'
+    n = 0
+
+    def scenario(cell_specs):
+        world = World()
+        model = Rec(cls='pkg:model:Model', cells={}, defined_names={}, ranges={}, formulae={})
+        mk = Interp(ctx.a, em, {}, inline_pkg=True, world=world)
+        world.globals['pkg:xlfunctions.xl:FUNCTIONS'] = {}
+        evaluator = mk._construct('pkg:evaluator:Evaluator', [model], {})
+        if not isinstance(evaluator, Rec) or any(e[0] == '<init-unmodelled>' for e in mk.out.events):
+            raise Unmodelled('Evaluator(model) on the witness model')
+
+        def run_nested(context, addr):
+            sub = Interp(ctx.a, em, {'context': context, 'addr': addr}, inline_pkg=True, world=world)
+            out = sub.run([ast.parse('return context.eval_cell(addr)').body[0]])
+            if out.end == 'raise':
+                from xlsa.guards import ExcRaised
+                raise ExcRaised(out.value)
+            return out.value
+        asts = {}
+        budget = {'n': 0}
+        for addr, spec in cell_specs.items():
+            if spec is None or not isinstance(spec, dict):
+                model.f['cells'][addr] = Rec(cls='pkg:xltypes:XLCell', address=addr, value=spec, formula=None, need_update=False, defined_names=[])
+            else:
+                a = _Ast(run_nested, spec.get('refs', []), spec.get('result'), spec.get('fail'), budget)
+                asts[addr] = a
+                model.f['cells'][addr] = Rec(cls='pkg:xltypes:XLCell', address=addr, value=None, need_update=True, defined_names=[],
+                                             formula=Rec(cls='pkg:xltypes:XLFormula', formula='=witness', evaluate=True, ast=a, terms=list(spec.get('refs', []))))
+
+        def evaluate(addr):
+            it = Interp(ctx.a, em, {'e': evaluator, 'addr': addr}, inline_pkg=True, world=world)
+            return it.run([ast.parse('return e.evaluate(addr)').body[0]])
+        return evaluator, asts, evaluate
+
+    if 'restore' in parts:
+        n += _restore_part(ctx, scenario, ev_fn)
+    if 'diamond' in parts:
+        n += _diamond_part(ctx, scenario, ev_fn)
+    if 'cycle' in parts:
+        n += _cycle_part(ctx, scenario, ev_fn)
+    return n
+
+
+def _restore_part(ctx, scenario, ev_fn):
+    n = 0
+    # 1. a failed evaluation leaves nothing behind; the next evaluation of the same cell works
+    evaluator, asts, evaluate = scenario({'S!A1': {'refs': ['S!B1'], 'result': 'ok'}, 'S!B1': {'refs': [], 'fail': 'builtin:KeyError'}})
+    before = _snapshot(evaluator)
+    out1 = evaluate('S!A1')
+    after = _snapshot(evaluator)
+    n += 1
+    ctx.expect(out1.end == 'raise', ev_fn, 'a Python-level failure inside a precedent surfaces as an exception',
+               f'evaluating a cell whose precedent fails with KeyError ends in {out1.end} {out1.value!r}')
+    n += 1
+    ctx.expect(before == after, ev_fn, 'a failed evaluation leaves the evaluator as it found it',
+               f'after a failed evaluation the evaluator holds {after}, before it held {before}: bookkeeping of the failed evaluation '
+               '(the addresses on the evaluation stack) stays behind and the next evaluation of these cells reports a cycle that is not there')
+    asts['S!B1'].fail = None
+    asts['S!B1'].result = 7
+    out2 = evaluate('S!A1')
+    n += 1
+    ctx.expect(out2.end == 'return' and out2.value == 'ok', ev_fn, 'after a failed evaluation the same cells evaluate normally',
+               f'evaluating the cell again after the cause of the failure is gone ends in {out2.end} {out2.value!r}')
+    # 2. a successful evaluation leaves nothing behind either
+    evaluator, asts, evaluate = scenario({'S!A1': {'refs': ['S!B1'], 'result': 'ok'}, 'S!B1': 5})
+    before = _snapshot(evaluator)
+    out = evaluate('S!A1')
+    n += 1
+    ctx.expect(out.end == 'return' and _snapshot(evaluator) == before, ev_fn, 'a successful evaluation leaves the evaluator as it found it',
+               f'after a successful evaluation ({out.end}) the evaluator holds {_snapshot(evaluator)}, before it held {before}')
+    return n
+
+
+def _diamond_part(ctx, scenario, ev_fn):
+    n = 0
+    # 3. diamond and repeated reference are no cycles
+    evaluator, asts, evaluate = scenario({'S!D1': {'refs': ['S!B1', 'S!C1', 'S!B1'], 'result': 'd'}, 'S!B1': {'refs': ['S!A1'], 'result': 'b'},
+                                          'S!C1': {'refs': ['S!A1'], 'result': 'c'}, 'S!A1': {'refs': [], 'result': 'a'}})
+    out = evaluate('S!D1')
+    n += 1
+    ctx.expect(out.end == 'return' and out.value == 'd', ev_fn, 'diamond and repeated references evaluate (no false cycle)',
+               f'D1 = f(B1, C1, B1) with B1 = g(A1), C1 = h(A1) ends in {out.end} {out.value!r}: shared precedents are not cycles')
+    # the same precedent reached again in a LATER evaluation on the same evaluator
+    out = evaluate('S!B1')
+    n += 1
+    ctx.expect(out.end == 'return' and out.value == 'b', ev_fn, 'a precedent can be evaluated on its own after its dependents',
+               f'evaluating B1 after D1 (which used it) ends in {out.end} {out.value!r}')
+    return n
+
+
+def _cycle_part(ctx, scenario, ev_fn):
+    n = 0
+    # 4. real cycles are reported, not followed
+    for label, cells, start in (('A1 -> A1', {'S!A1': {'refs': ['S!A1'], 'result': 'x'}}, 'S!A1'),
+                                ('A1 -> B1 -> C1 -> A1', {'S!A1': {'refs': ['S!B1'], 'result': 'x'}, 'S!B1': {'refs': ['S!C1'], 'result': 'x'},
+                                                          'S!C1': {'refs': ['S!A1'], 'result': 'x'}}, 'S!A1')):
+        evaluator, asts, evaluate = scenario(cells)
+        try:
+            out = evaluate(start)
+            res = (out.end, sum(a.calls for a in asts.values()))
+        except _Unbounded as exc:
+            res = ('unbounded', str(exc)[:80])
+        n += 1
+        ctx.expect(res[0] == 'raise' and isinstance(res[1], int) and res[1] <= len(cells), ev_fn, f'the cycle {label} is reported on re-entry',
+                   f'evaluating the cyclic model {label} ends in {res[0]} after {res[1]} formula evaluations: every formula may be entered at most '
+                   'once before the cycle is reported (the guard must see the cells currently being evaluated)')
+    return n
